@@ -36,7 +36,9 @@ What is NOT a theorem: the composition of the four models (work-coalescing queue
 fsync core, log bytes).  The queue theorems say "the core is handed each input once, in link
 order"; that the file then is `writeAll` of the merged batches in that order, and that a `true`
 from the fsync core refers to THOSE bytes, is compared on every concurrent run (final file =
-`writeAll` of the observed merge, fdatasync probe), not proved. -/
+`writeAll` of the observed merge, fdatasync probe; in the runs with a failing `fdatasync` the
+observed rounds of the fsync queue — members, whether a call was made, what it returned — are
+replayed through `Blue.FsyncCore.rstep` and the answers compared), not proved. -/
 namespace Blue.Props.C12
 open Blue.Log
 
@@ -199,6 +201,75 @@ theorem batch_returns_seen_loses_durability :
       ∧ (∀ i ∈ inputs, i ≤ (Blue.FsyncCore.step s (.work inputs true)).1.durable) :=
   Blue.FsyncCore.batch_returns_seen_loses_durability
 
+/-! ### the same with the system call as two events, and calls that FAIL
+
+`Blue.FsyncCore.rstep` (`Blue/Model/FsyncCore.lean`, the machine the driver replays the observed
+rounds of the fsync queue through): a batch enters `work` (`enter`), takes the `synced >= acc`
+shortcut or issues an `fdatasync`; writes of other callers land while it is in flight; it returns
+success or FAILURE (`ret ok`).  On a failure every member is answered `false`
+(`Err(corruption_fsync_failed)` from `append`), `synced` and `durable` do not move, and nothing
+else happens — the `poison` flag `append` sets is never read, so later appends are served (each
+batch not yet covered issues its own call). -/
+
+/-- the run invariant `synced ≤ durable ≤ written` (and the in-flight call's `acc ≤ len ≤ written`)
+    holds after every run, whatever calls failed -/
+theorem fsync_run_invariant (evs : List Blue.FsyncCore.REv) : Blue.FsyncCore.RInv (Blue.FsyncCore.run evs) :=
+  Blue.FsyncCore.rinv_run evs
+
+/-- **"each call returns only after its batch is durable", with failing system calls**: in every
+    run of the fsync core — any interleaving of writes, batches entering `work`, and `fdatasync`s
+    returning success or failure — a caller answered `true` has its offset covered by an
+    `fdatasync` that was issued after its bytes were written and has returned SUCCESSFULLY
+    (`durable` is raised only by `ret true`, to `written` as it was when that call was issued) -/
+theorem run_answered_true_is_durable (evs : List Blue.FsyncCore.REv) (ev : Blue.FsyncCore.REv) (a : Blue.FsyncCore.Ans)
+    (hans : (Blue.FsyncCore.rstep (Blue.FsyncCore.run evs) ev).2 = some a) (hok : a.ok = true) :
+    ∀ i ∈ a.inputs, i ≤ (Blue.FsyncCore.rstep (Blue.FsyncCore.run evs) ev).1.durable :=
+  Blue.FsyncCore.run_answered_true_is_durable evs ev a hans hok
+
+/-- … and it stays covered -/
+theorem durable_mono (s : Blue.FsyncCore.RSt) (ev : Blue.FsyncCore.REv) :
+    s.durable ≤ (Blue.FsyncCore.rstep s ev).1.durable := Blue.FsyncCore.durable_mono s ev
+
+/-- a failed `fdatasync` answers every member of its batch `false` and moves nothing -/
+theorem failed_call_answers_false_moves_nothing (s : Blue.FsyncCore.RSt) (f : Blue.FsyncCore.Flight)
+    (h : s.flight = some f) :
+    Blue.FsyncCore.rstep s (.ret false) = ({ s with flight := none }, some ⟨f.inputs, false⟩) :=
+  Blue.FsyncCore.failed_call_answers_false_moves_nothing s f h
+
+/-- an error is never invented: `false` is answered only by the return of a failed call, to the
+    members of the batch that issued it -/
+theorem false_only_from_failed_call {s : Blue.FsyncCore.RSt} {ev : Blue.FsyncCore.REv} {a : Blue.FsyncCore.Ans}
+    (hans : (Blue.FsyncCore.rstep s ev).2 = some a) (hf : a.ok = false) :
+    ev = .ret false ∧ ∃ f, s.flight = some f ∧ a.inputs = f.inputs :=
+  Blue.FsyncCore.false_only_from_failed_call hans hf
+
+/-- after a failed call, a batch holding an offset no successful `fdatasync` covers issues its own
+    call: it is not acknowledged on the strength of the failed one -/
+theorem after_failed_call_next_batch_syncs {s : Blue.FsyncCore.RSt} (h : Blue.FsyncCore.RInv s)
+    (f : Blue.FsyncCore.Flight) (hf : s.flight = some f) (inputs : List Nat)
+    (hin : ∀ i ∈ inputs, i ≤ s.written) (hnew : s.durable < Blue.FsyncCore.acc inputs) :
+    (Blue.FsyncCore.rstep (Blue.FsyncCore.rstep s (.ret false)).1 (.enter inputs)).2 = none
+      ∧ (Blue.FsyncCore.rstep (Blue.FsyncCore.rstep s (.ret false)).1 (.enter inputs)).1.flight
+          = some ⟨Blue.FsyncCore.acc inputs, s.written, inputs⟩ :=
+  Blue.FsyncCore.after_failed_call_next_batch_syncs h f hf inputs hin hnew
+
+/-- "`synced` advances only when the call succeeded" is needed (seeded change C02r3-3: `self.synced
+    = acc` before the `fdatasync`, whatever it returns — `rstepEarly`).  Closed counterexample: one
+    coalesced write of 10 bytes for two appenders; the first leads a batch alone and its call
+    FAILS; the second enters next.  As mutated it is answered `true` with `durable = 0`; the real
+    core answers nothing yet, has a second call in flight, and answers `true` with `durable = 10`
+    when that call returns successfully -/
+theorem synced_before_failed_call_loses_durability :
+    ∃ (evs : List Blue.FsyncCore.REv) (inputs : List Nat),
+      (Blue.FsyncCore.rstepEarly (Blue.FsyncCore.runEarly evs) (.enter inputs)).2 = some ⟨inputs, true⟩
+      ∧ (∃ i ∈ inputs, (Blue.FsyncCore.rstepEarly (Blue.FsyncCore.runEarly evs) (.enter inputs)).1.durable < i)
+      ∧ (Blue.FsyncCore.rstep (Blue.FsyncCore.run evs) (.enter inputs)).2 = none
+      ∧ (Blue.FsyncCore.rstep (Blue.FsyncCore.rstep (Blue.FsyncCore.run evs) (.enter inputs)).1 (.ret true)).2
+          = some ⟨inputs, true⟩
+      ∧ (∀ i ∈ inputs,
+          i ≤ (Blue.FsyncCore.rstep (Blue.FsyncCore.rstep (Blue.FsyncCore.run evs) (.enter inputs)).1 (.ret true)).1.durable) :=
+  Blue.FsyncCore.synced_before_failed_call_loses_durability
+
 /-- in every interleaving of `do_work` the log of what the core was handed is `0, 1, …, m-1`: the
     callers' inputs in link order, none twice, none skipped (that every caller that RETURNED is
     among them is `own_result`; "exactly once" for a still waiting caller is not claimed).  This is
@@ -317,6 +388,21 @@ example :
       ∧ (Blue.FsyncCore.step s1 (.work [7, 10] true)).1.durable = 10 := by
   refine ⟨⟨Nat.le_refl _, Nat.le_refl _⟩, ?_, ?_⟩ <;> decide
 
+/-- a run with a failing call (directed schedules of stream 8): 10 bytes written for appenders A
+    and B by one coalesced write; A's batch `{10}` issues a call, 7 more bytes land while it is
+    in flight, the call FAILS: A is answered `false`, nothing is durable.  B's batch `{10}` issues
+    its own call (17 bytes are in the file), which succeeds: B is answered `true`, 17 bytes are
+    durable.  `run_answered_true_is_durable` applies to the last step (its hypotheses are met) -/
+example :
+    let evs : List Blue.FsyncCore.REv := [.wrote 10, .enter [10], .wrote 17, .ret false, .enter [10]]
+    (Blue.FsyncCore.rstep (Blue.FsyncCore.run (evs.take 3)) (.ret false)).2 = some ⟨[10], false⟩
+      ∧ (Blue.FsyncCore.run (evs.take 4)).durable = 0
+      ∧ (Blue.FsyncCore.rstep (Blue.FsyncCore.run (evs.take 4)) (.enter [10])).2 = none
+      ∧ (Blue.FsyncCore.rstep (Blue.FsyncCore.run evs) (.ret true)).2 = some ⟨[10], true⟩
+      ∧ (Blue.FsyncCore.rstep (Blue.FsyncCore.run evs) (.ret true)).1.durable = 17 := by decide
+example := run_answered_true_is_durable [.wrote 10, .enter [10], .wrote 17, .ret false, .enter [10]] (.ret true)
+  ⟨[10], true⟩ (by decide) rfl
+
 /-- the queue: three callers, the first leads a batch of two whose members get the same value (as
     the log's write core answers), the third leads alone -/
 example :
@@ -345,6 +431,13 @@ end Blue.Props.C12
 #print axioms Blue.Props.C12.fsync_invariant
 #print axioms Blue.Props.C12.answered_true_is_durable
 #print axioms Blue.Props.C12.batch_returns_seen_loses_durability
+#print axioms Blue.Props.C12.fsync_run_invariant
+#print axioms Blue.Props.C12.run_answered_true_is_durable
+#print axioms Blue.Props.C12.durable_mono
+#print axioms Blue.Props.C12.failed_call_answers_false_moves_nothing
+#print axioms Blue.Props.C12.false_only_from_failed_call
+#print axioms Blue.Props.C12.after_failed_call_next_batch_syncs
+#print axioms Blue.Props.C12.synced_before_failed_call_loses_durability
 #print axioms Blue.Props.C12.core_sees_inputs_once_in_order
 #print axioms Blue.Props.C12.own_result
 #print axioms Blue.Props.C12.core_sees_inputs_once_in_order_v
